@@ -27,6 +27,7 @@ CONFIGS = [
     ('UNRESTRICTED_GENTYPE', ('GLM_FORCE_UNRESTRICTED_GENTYPE',), None), ('QUAT_DATA_WXYZ', ('GLM_FORCE_QUAT_DATA_WXYZ',), None),
     ('COMPILER_UNKNOWN', ('GLM_FORCE_COMPILER_UNKNOWN',), None), ('PLATFORM_UNKNOWN', ('GLM_FORCE_PLATFORM_UNKNOWN',), None), ('ARCH_UNKNOWN', ('GLM_FORCE_ARCH_UNKNOWN',), None),
     ('PURE', ('GLM_FORCE_PURE',), None), ('SILENT_WARNINGS', ('GLM_FORCE_SILENT_WARNINGS',), None),
+    ('DEFAULT@gccview', (), None), ('CXX98@gccview', ('GLM_FORCE_CXX98',), None), ('CXX03@gccview', ('GLM_FORCE_CXX03',), None), ('CXX11@gccview', ('GLM_FORCE_CXX11',), None),
 ]
 COMBOS = [
     ('CXX98+XYZW_ONLY', ('GLM_FORCE_CXX98', 'GLM_FORCE_XYZW_ONLY'), None), ('CXX11+SIZE_T+CTOR_INIT', ('GLM_FORCE_CXX11', 'GLM_FORCE_SIZE_T_LENGTH', 'GLM_FORCE_CTOR_INIT'), None),
@@ -61,8 +62,18 @@ def corpus(tier):
     return out
 
 
+# The baseline is built with g++; GLM keys several feature macros (GLM_HAS_INITIALIZER_LISTS, GLM_HAS_CONSTEXPR ...) on the *compiler* under clang
+# (__has_feature) but on the *forced language level* under g++, so the pre-C++11 arms of the sources are only compiled by g++ under GLM_FORCE_CXX98/03.
+# The 'gccview' configurations make clang preprocess GLM the way g++ does: the standard headers are included first with the real compiler identity,
+# then __clang__ is undefined and __GNUC__ set to the baseline compiler's version before the GLM headers are read.
+GCC_VIEW = ('#include <cmath>\n#include <cstddef>\n#include <cstdint>\n#include <cstdlib>\n#include <cstring>\n#include <cfloat>\n#include <climits>\n#include <limits>\n#include <cassert>\n#include <type_traits>\n'
+            '#include <utility>\n#include <functional>\n#include <algorithm>\n#include <string>\n#include <cstdio>\n#include <ctime>\n'
+            '#pragma clang diagnostic ignored "-Wbuiltin-macro-redefined"\n#undef __clang__\n#undef __GNUC__\n#define __GNUC__ 12\n#undef __GNUC_MINOR__\n#define __GNUC_MINOR__ 2\n')
+
+
 def reconf(k, cname, defines, std):
-    cfg = Cfg(k.cfg.name + '@' + cname, defines=defines, headers=k.cfg.headers, std=std)
+    gcc = cname.endswith('@gccview')
+    cfg = Cfg(k.cfg.name + '@' + cname, defines=defines, headers=k.cfg.headers, std=std, pre_text=GCC_VIEW if gcc else '')
     return K(k.name + '__' + cname, k.params, k.body, cfg, meta=k.meta)
 
 
